@@ -633,6 +633,21 @@ func (g *txnGen) txnStep(id int) {
 		n := g.id()
 		g.ops = append(g.ops, fmt.Sprintf("SNAP,%s,%d", src, n))
 		g.open = append(g.open, n)
+		// a snapshot is a read-only transaction of its own: writes through it are refused, settling it neither publishes
+		// anything nor releases the lock of the transaction it was taken from
+		if g.r.Chance(40) {
+			sn := strconv.Itoa(n)
+			for i := 1 + g.r.Intn(2); i > 0; i-- {
+				switch g.r.Intn(3) {
+				case 0:
+					g.ops = append(g.ops, g.writeStep(sn))
+				case 1:
+					g.ops = append(g.ops, Pick(g.r, []string{"COMMIT", "ABORT"})+","+sn)
+				default:
+					g.ops = append(g.ops, g.readStep(sn, false))
+				}
+			}
+		}
 	case x < 17:
 		n := g.id()
 		g.ops = append(g.ops, fmt.Sprintf("ITER,%s,%d", src, n))
